@@ -154,9 +154,16 @@ func c12Bzip2(r *vhlib.Run, data []byte, level int) {
 		if (lok && lns > 0) || !isPrefix(lout, data) {
 			r.Violate("cut-bzip2-misread", fmt.Sprintf("libbz2 cut=%d/%d ok=%v out=%d", k, len(sink), lok, len(lout)), rp)
 		}
+		// Go's compress/bzip2 must not ACCEPT a cut either; what it delivers before failing is not
+		// held against the Writer: its bit reader feeds zeros to the decoder after the input ends,
+		// so on a cut it can emit bytes of its own making before it reports the error (libbz2 and
+		// this repository's Reader are the references for the bytes)
 		sout, serr := ioutil.ReadAll(stdbzip2.NewReader(bytes.NewReader(cut)))
-		if serr == nil || !isPrefix(sout, data) {
-			r.Violate("cut-bzip2-misread", fmt.Sprintf("compress/bzip2 cut=%d err=%v out=%d", k, serr, len(sout)), rp)
+		if serr == nil {
+			r.Violate("cut-bzip2-misread", fmt.Sprintf("compress/bzip2 accepted cut=%d out=%d", k, len(sout)), rp)
+		}
+		if !isPrefix(sout, data) {
+			r.Hist["compress/bzip2-garbage-before-error-on-cut"]++
 		}
 		o := observe(codecs()[2], cut, srcKinds()[0], []int{4096}, r.Rng)
 		if o.Cls == "nil" || !isPrefix(o.Out, data) {
